@@ -45,9 +45,9 @@ var c15Globs = []string{
 	".github/workflows/a*.yml",
 	"**/b*.yml",
 	"**/*",
-	".github/workflows/*.yaml", // matches nothing here
-	"workflows/*.yml",          // only matches when the path is (wrongly) taken relative to .github
-	"a*.yml",                   // only matches when the path is (wrongly) taken relative to .github/workflows
+	".github/workflows/*.yaml",  // matches nothing here
+	"workflows/*.yml",           // only matches when the path is (wrongly) taken relative to .github
+	"a*.yml",                    // only matches when the path is (wrongly) taken relative to .github/workflows
 	"*/.github/workflows/*.yml", // only matches when the path is (wrongly) taken relative to the parent of the repository
 	"{.github,other}/workflows/[ab]*.yml",
 }
